@@ -171,7 +171,29 @@ def check_config(ctx, cfg):
                         paths = [tuple(map(tuple, i.path)) for i in top.all_resources()]
                         if len(set(paths)) != len(paths) or len(paths) != depth + 2:
                             bad.append(("paths after nested anonymous windows", paths))
-        res("history_exact", not bad, "shared / nested anonymous windows: " + str(bad[:3]))
+        # nested NAMED windows: every level's window name stays in the path, so equal leaf names under different windows stay distinct
+        for depth in (2, 3, 4):
+            top = None
+            expect_paths = []
+            leaves = []
+            for branch in ("uart0", "uart1"):
+                inner = MemoryMap(addr_width=2, data_width=8); inner.add_resource(R(), name="ctrl", size=1)
+                chain = [branch]
+                for d in range(depth - 2):
+                    mid = MemoryMap(addr_width=3 + d, data_width=8); mid.add_window(inner, name=f"l{d}"); inner = mid; chain.insert(0, None); chain[0] = f"l{d}"
+                leaves.append((inner, branch, [f"l{d}" for d in range(depth - 3, -1, -1)]))
+            periph = MemoryMap(addr_width=8, data_width=8)
+            for inner, branch, mids in leaves:
+                periph.add_window(inner, name=branch)
+                expect_paths.append(("periph", branch) + tuple(mids) + ("ctrl",))
+            root = MemoryMap(addr_width=10, data_width=8); root.add_window(periph, name="periph")
+            got = [tuple(".".join(map(str, part)) for part in i.path) for i in root.all_resources()]
+            if sorted(got) != sorted(expect_paths) or len(set(got)) != len(got):
+                bad.append(("nested named windows: reported paths", got, "expected", expect_paths))
+            for i in root.all_resources():
+                if tuple(map(tuple, root.find_resource(i.resource).path)) != tuple(map(tuple, i.path)):
+                    bad.append(("find_resource path differs from all_resources path", got))
+        res("history_exact", not bad, "shared / nested windows: " + str(bad[:3]))
         ctx.nontrivial = True
         return
     if cfg["kind"] == "pairs":
